@@ -588,6 +588,65 @@ impl Snapshot {
         Ok(Snapshot { queues })
     }
 
+    /// A consumer resuming behind (or at) a position it has already seen must be handed exactly
+    /// the records that `range(..)` shows beyond it. Checked at the positions next to every
+    /// hole in a queue's positions (what a dropped entry leaves behind), at both ends and just
+    /// outside them. Returns the number of resuming reads compared.
+    pub fn resume_reads(&self, log: &MultiRecordLog) -> Result<u64, String> {
+        use std::ops::Bound;
+        let mut n = 0u64;
+        for (q, qs) in &self.queues {
+            let recs = &qs.recs;
+            if recs.is_empty() {
+                continue;
+            }
+            let mut at: Vec<u64> = Vec::new();
+            let first = recs[0].pos;
+            let last = recs[recs.len() - 1].pos;
+            at.push(first);
+            at.push(last);
+            if recs.len() >= 2 {
+                at.push(recs[recs.len() - 2].pos);
+            }
+            if let Some(x) = first.checked_sub(1) {
+                at.push(x);
+            }
+            let mut holes = 0;
+            for w in recs.windows(2) {
+                if w[1].pos != w[0].pos.wrapping_add(1) {
+                    at.push(w[0].pos);
+                    at.push(w[0].pos.wrapping_add(1));
+                    at.push(w[1].pos - 1);
+                    at.push(w[1].pos);
+                    holes += 1;
+                    if holes >= 4 {
+                        break;
+                    }
+                }
+            }
+            at.sort();
+            at.dedup();
+            for p in at {
+                for excl in [true, false] {
+                    let lo = if excl { Bound::Excluded(p) } else { Bound::Included(p) };
+                    let it = log.range(q, (lo, Bound::Unbounded)).map_err(|e| format!("range on listed queue: {}", e))?;
+                    let got: Vec<Rec> = it.map(|r| Rec { pos: r.position, len: r.payload.len() as u32, hash: hash_bytes(&r.payload) }).collect();
+                    let want: Vec<Rec> = recs.iter().filter(|r| if excl { r.pos > p } else { r.pos >= p }).cloned().collect();
+                    n += 1;
+                    if got != want {
+                        return Err(format!(
+                            "a consumer resuming {} position {} of queue {:?} is handed {} record(s) (positions {:?}), range(..) shows {} beyond it (positions {:?})",
+                            if excl { "behind" } else { "at" }, p, short(q), got.len(),
+                            got.iter().map(|r| r.pos).take(6).collect::<Vec<_>>(), want.len(),
+                            want.iter().map(|r| r.pos).take(6).collect::<Vec<_>>()
+                        ));
+                    }
+                }
+            }
+        }
+        Ok(n)
+    }
+
     pub fn digest(&self) -> u64 {
         let mut h = 0x1234_5678u64;
         for (n, q) in &self.queues {
